@@ -24,6 +24,7 @@ import (
 	lcontext "github.com/ysugimoto/falco/v2/linter/context"
 	"github.com/ysugimoto/falco/v2/parser"
 	"github.com/ysugimoto/falco/v2/resolver"
+	"github.com/ysugimoto/falco/v2/snippet"
 )
 
 type inertLintReply struct {
@@ -104,7 +105,31 @@ func init() {
 				return "badreq " + err.Error()
 			}
 			abs, _ := filepath.Abs(rest)
-			return inertLintSource(m.Name, m.Data, lcontext.New(lcontext.WithResolver(rs[0])), abs, mode == "inc")
+			opts := []lcontext.Option{lcontext.WithResolver(rs[0])}
+			// optional Fastly managed snippets: <dir>/snippets.json = {"include": {name: vcl}, "scoped": {scope: [{"name":..,"data":..}]}}
+			if raw, err := os.ReadFile(filepath.Join(rest, "snippets.json")); err == nil {
+				var js struct {
+					Include map[string]string `json:"include"`
+					Scoped  map[string][]struct {
+						Name string `json:"name"`
+						Data string `json:"data"`
+					} `json:"scoped"`
+				}
+				if err := json.Unmarshal(raw, &js); err != nil {
+					return "badreq " + err.Error()
+				}
+				sn := &snippet.Snippets{IncludeSnippets: snippet.IncludeSnippets{}, ScopedSnippets: snippet.ScopedSnippets{}}
+				for k, v := range js.Include {
+					sn.IncludeSnippets[k] = snippet.Item{Name: k, Data: v}
+				}
+				for sc, items := range js.Scoped {
+					for _, it := range items {
+						sn.ScopedSnippets[sc] = append(sn.ScopedSnippets[sc], snippet.Item{Name: it.Name, Data: it.Data})
+					}
+				}
+				opts = append(opts, lcontext.WithSnippets(sn))
+			}
+			return inertLintSource(m.Name, m.Data, lcontext.New(opts...), abs, mode == "inc")
 		}
 		_ = os.Stderr
 		return "badreq unknown mode " + mode
